@@ -46,6 +46,16 @@ const telegramP = "C71CAEB9C6B1C9048E6C522F70F13F73980D40238E3E21C14934D037563D9
 	"E418FC15E83EBEA0F87FA9FF5EED70050DED2849F47BF959D956850CE929851F" +
 	"0D8115F635B105EE2E4E15D04B2454BF6F4FADF034B10403119CD8E3B92FCC5B"
 
+// srp_B of the exchange recorded in 2fa_test.go (expected M1 999df906...ad4051)
+const recordedB = "9c52401a6a8084ec82f01c3725d3fb448bd2f0c909f9d97726eac4b7a74172d9" +
+	"52f02466be6734fa274d2b7429e27397f10372d66b400b80a5c5ae3f28b17bf3" +
+	"105d7a2d2a885998cdc2defc208aec217ab58859a9abc2374ad93dc285f4b3fb" +
+	"caff4143d7888f2425bd2fb711b25609ceb21757d935b1ef2f042173ad0ce2fe" +
+	"0e474dac53914bd25a8a9aed4aea8953d55cb88621db37b871ea0d04393ac098" +
+	"7f68094ccc9de8239251375d8fffd263316cd528c097b7bc9fb919fbedb76c52" +
+	"5df3413c374ee076d97a1e6d352bb7cc80fd13651b04b32e2e48c5268150842c" +
+	"fd07cf855958b1b5ea9c36fdad697fe3aec8dcc6b1efec36874af226204676cf"
+
 // ---------------------------------------------------------------------------------------------
 // encoding helpers
 
@@ -797,6 +807,16 @@ func genAll(tier string) []job {
 					return rawCase(cid, g.mode, randPassword(r), bc.mkB(g, r), mp, randomBytesFor(r, g, true), bc.tag+"/"+g.name)
 				})
 			}
+		}
+		if rep == 0 { // the vector recorded from Telegram in 2fa_test.go (client secret a = 1)
+			cv := id()
+			add(func(r *vc.Rng) *outCase {
+				one := make([]byte, 256)
+				one[255] = 1
+				mp := &srp.ModPow{Salt1: vc.UnHex("4d11fb6bec38f9d2546bb0f61e4f1c99a1bc0db8f0d5f35b1291b37b213123d7ed48f3c6794d495b"),
+					Salt2: vc.UnHex("a1b181aafe88188680ae32860d60bb01"), G: 3, P: real.P}
+				return rawCase(cv, "orac", "123123", vc.UnHex(recordedB), mp, one, "recorded vector (2fa_test.go)")
+			})
 		}
 		// empty password: with good parameters, with a refused B, with nil parameters
 		c1, c2, c3, c4, c5 := id(), id(), id(), id(), id()
